@@ -428,28 +428,11 @@ static void case_nd_prng(vf_rng *r)
  * all parts, are exactly the input points that are in range in both
  * dimensions, in order, each once.  line() of a part has its usr points.
  */
-/* a crossing fraction that underflows double to 0 cannot be stored as non-zero code (see notes): such data are not decided */
-static bool fraction_underflow(size_t n, const double *x, const double *y, const double (*rg)[2])
-{
-	for (size_t i = 0; i + 1 < n; i++) {
-		const double *v[2] = { x, y };
-		for (int d = 0; d < 2; d++) {
-			for (int w = 0; w < 2; w++) {
-				double out = v[d][i + w], in = v[d][i + 1 - w];
-				if (in < rg[d][0] || in > rg[d][1]) continue;
-				volatile double f = out < rg[d][0] ? (rg[d][0] - out) / (in - out) : out > rg[d][1] ? (out - rg[d][1]) / (out - in) : 1;
-				if (f == 0) { vf_count("data:fraction-underflow", 1); return true; }
-			}
-		}
-	}
-	return false;
-}
 static void check_polyline2(const mpt::polyline &pl, bool ok, size_t n, const double *x, const double *y, const double (*rg)[2], const char *desc);
 static void run_polyline2(size_t n, const double *x, const double *y, const double (*rg)[2], const char *desc)
 {
 	RT tr(2);
 	tr.set(0, rg[0][0], rg[0][1]); tr.set(1, rg[1][0], rg[1][1]);
-	if (fraction_underflow(n, x, y, rg)) return;
 	mpt::value_store st[2];
 	if (!st[0].set(mpt::span<const double>(x, n)) || !st[1].set(mpt::span<const double>(y, n))) vf_inconclusive("value_store::set refused %zu doubles", n);
 	mpt::polyline pl;
@@ -477,7 +460,10 @@ static void check_polyline2(const mpt::polyline &pl, bool ok, size_t n, const do
 	size_t got = 0, k = 0;
 	const mpt::polyline::point *base = pl.points().begin();
 	long uo = 0;
-	for (mpt::polyline::iterator it = pl.begin(), end = pl.end(); it != end && k < (size_t) lp.size(); ++it, ++k) {
+	/* the transformed points are those of the parts, nothing of earlier data */
+	VF_CHECK(pl.points().size() == su, "cxx:polyline:point-count", "%s: %ld points held for parts drawing %ld", desc, (long) pl.points().size(), su);
+	mpt::polyline::iterator it = pl.begin(), end = pl.end();
+	for ( ; it != end && k < (size_t) lp.size(); ++it, ++k) {
 		mpt::polyline::part pt = *it;
 		const mpt::linepart &e = lp.begin()[k];
 		vf_at("polyline::part::line");
@@ -507,7 +493,9 @@ static void check_polyline2(const mpt::polyline &pl, bool ok, size_t n, const do
 		}
 		uo += e.usr;
 	}
+	VF_CHECK(!(it != end), "cxx:polyline:iteration-does-not-end", "%s: begin()..end() walk has not reached end() after all %zu parts", desc, (size_t) lp.size());
 	VF_CHECK(got == vis.size(), "cxx:polyline:drawn-points", "%s: %zu points delivered as drawn, %zu input points are in range in both dimensions", desc, got, vis.size());
+	if (!vis.size()) vf_count("state:polyline-nothing-visible", 1);
 	vf_count("monitor:polyline2-lists", 1);
 }
 static uint64_t pl2_ex_count()
@@ -646,7 +634,8 @@ static void case_history(vf_rng *r)
 	tr.set(0, rg[0][0], rg[0][1]); tr.set(1, rg[1][0], rg[1][1]);
 	mpt::polyline pl;
 	mpt::reference<mpt::cycle>::type cyc;
-	std::vector<double> x(64), y(64);
+	std::vector<double> x(64), y(64), prevx(64), prevy(64);
+	size_t prevn = 0;
 	char desc[400];
 	std::string all = use_cycle ? "cycle stage:" : "polyline:";
 
@@ -661,11 +650,16 @@ static void case_history(vf_rng *r)
 		for (size_t i = 0; i < n; i++) { if (x[i] == 0 || x[i] == 10) x[i] = 5; if (y[i] == 0 || y[i] == 10) y[i] = 5; }
 		if (vf_chance(r, 1, 3)) x[0] = -3; else if (vf_chance(r, 1, 3)) x[n - 1] = 12;
 		if (vf_chance(r, 1, 4)) for (size_t i = 0; i < n; i++) { x[i] = 1 + (double) i / 8; if (!keep_y) y[i] = 2 + (double) i / 16; }   /* everything in range */
+		else if (s && vf_chance(r, 1, 3)) {
+			/* nothing visible: every point outside in x (below, above or jumping across the range) */
+			int how = (int) vf_below(r, 3);
+			for (size_t i = 0; i < n; i++) x[i] = how == 0 ? -1 - (double) i : how == 1 ? 11 + (double) i / 4 : (i & 1) ? 12 : -2;
+			vf_count("history:invisible-data-set", 1);
+		}
 		vf_fp(x.data(), n * 8); vf_fp(y.data(), n * 8);
 		size_t l = snprintf(desc, sizeof(desc), "%s data set %d of %d, n=%zu:", use_cycle ? "cycle stage" : "polyline", s + 1, steps, n);
 		for (size_t i = 0; i < n && l + 50 < sizeof(desc); i++) l += snprintf(desc + l, sizeof(desc) - l, " (%.6g,%.6g)", x[i], y[i]);
 		vf_log("%s", desc);
-		if (fraction_underflow(n, x.data(), y.data(), rg)) break;
 		bool ok;
 		if (use_cycle) {
 			vf_at("cycle::set_data");
@@ -688,11 +682,33 @@ static void case_history(vf_rng *r)
 				VF_CHECK(pl.parts().size() == 0 && pl.points().size() == 0 && !(pl.begin() != pl.end()), "cxx:polyline:clear-leaves-parts", "%s: after clear() %ld parts and %ld points remain", desc, (long) pl.parts().size(), (long) pl.points().size());
 			}
 			mpt::value_store st[2];
-			if (!st[0].set(mpt::span<const double>(x.data(), n)) || !st[1].set(mpt::span<const double>(y.data(), n))) vf_inconclusive("value_store::set refused");
+			size_t cur = n;
+			if (s && vf_chance(r, 1, 8)) {
+				/* empty data set: typed stores without elements */
+				cur = 0;
+				if (!st[0].reserve<double>(0) || !st[1].reserve<double>(0)) vf_inconclusive("value_store::reserve<double>(0) refused");
+				vf_count("history:empty-data-set", 1);
+				snprintf(desc, sizeof(desc), "polyline data set %d of %d, empty", s + 1, steps);
+				vf_log("%s", desc);
+			}
+			else if (!st[0].set(mpt::span<const double>(x.data(), n)) || !st[1].set(mpt::span<const double>(y.data(), n))) vf_inconclusive("value_store::set refused");
 			vf_at("polyline::set");
 			ok = pl.set(tr, mpt::span<const mpt::value_store>(st, 2));
 			vf_count("polyline::set", 1);
-			check_polyline2(pl, ok, n, x.data(), y.data(), rg, desc);
+			if (!cur) {
+				/* no data: set() fails; the polyline is either left as it was or empty, in any case consistent */
+				long su = 0;
+				for (auto &e : pl.parts()) su += e.usr;
+				VF_CHECK(!ok, "cxx:polyline:result", "%s: set() succeeded without data", desc);
+				if (su) check_polyline2(pl, true, prevn, prevx.data(), prevy.data(), rg, desc);
+				else {
+					VF_CHECK(pl.points().size() == 0, "cxx:polyline:point-count", "%s: %ld points held, no part draws any", desc, (long) pl.points().size());
+					VF_CHECK(!(pl.begin() != pl.end()), "cxx:polyline:iteration-does-not-end", "%s: begin() != end() although nothing is drawn", desc);
+				}
+				continue;
+			}
+			check_polyline2(pl, ok, cur, x.data(), y.data(), rg, desc);
+			prevx = x; prevy = y; prevn = n;
 		}
 		if (s) vf_count("monitor:history-steps", 1);
 		all += cleared ? " clear+set" : " set";
